@@ -247,6 +247,8 @@ type rule struct {
 	ipTable, netTable *ipsetTable
 	tcpPorts          []string
 	udpPorts          []string
+	// allPeers is set for a rule without from/to, it allows every source/destination
+	allPeers bool
 }
 
 type ipsetTable struct {
@@ -321,7 +323,7 @@ func (p *PolicyManager) peerRule(ports []networkv1.NetworkPolicyPort, peers []ne
 func (p *PolicyManager) peerRuleInNamespace(ports []networkv1.NetworkPolicyPort, peers []networkv1.NetworkPolicyPeer,
 	policyNamespace string) *rule {
 	tcpPorts, udpPorts := rulePorts(ports)
-	rule := rule{tcpPorts: tcpPorts, udpPorts: udpPorts}
+	rule := rule{tcpPorts: tcpPorts, udpPorts: udpPorts, allPeers: len(peers) == 0}
 	for j := range peers {
 		tbl, err := p.peerTable(&peers[j], policyNamespace)
 		if err != nil {
@@ -599,6 +601,10 @@ func (p *PolicyManager) writeRules(polices []policy, existingChains map[utilipta
 				if rule.netTable != nil {
 					srcTableNames = append(srcTableNames, rule.netTable.Name)
 				}
+				if rule.allPeers {
+					// no match on the source
+					srcTableNames = []string{""}
+				}
 				writePolicyChainRules(filterRules, string(policyChain), policyNameComment, srcTableNames,
 					[]string{policy.ingressRule.dstIPTable.Name}, rule.tcpPorts, rule.udpPorts)
 			}
@@ -611,6 +617,10 @@ func (p *PolicyManager) writeRules(polices []policy, existingChains map[utilipta
 				}
 				if rule.netTable != nil {
 					dstTableNames = append(dstTableNames, rule.netTable.Name)
+				}
+				if rule.allPeers {
+					// no match on the destination
+					dstTableNames = []string{""}
 				}
 				writePolicyChainRules(filterRules, string(policyChain), policyNameComment,
 					[]string{policy.egressRule.srcIPTable.Name}, dstTableNames, rule.tcpPorts, rule.udpPorts)
@@ -700,9 +710,14 @@ func writePolicyChainRules(filterRules *bytes.Buffer, policyChainName, policyNam
 	srcTableNames, dstTableNames, tcpPorts, udpPorts []string) {
 	for _, srcTableName := range srcTableNames {
 		for _, dstTableName := range dstTableNames {
-			setRules := []string{
-				"-m", "set", "--match-set", srcTableName, "src",
-				"-m", "set", "--match-set", dstTableName, "dst"}
+			// an empty table name stands for every address
+			var setRules []string
+			if srcTableName != "" {
+				setRules = append(setRules, "-m", "set", "--match-set", srcTableName, "src")
+			}
+			if dstTableName != "" {
+				setRules = append(setRules, "-m", "set", "--match-set", dstTableName, "dst")
+			}
 			if len(tcpPorts) > 0 {
 				args := []string{
 					"-A", policyChainName,
